@@ -278,6 +278,12 @@ def gen_cases(rng, tier):
         out.append(case("secp-sign-s=%s" % ("half" if st == half else "half+1" if st == half + 1 else st if st < 3 else "n-%d" % (N - st)),
                         "sign", "secp", [k], d, z))
         out.append(case("secp-sign-s-target-bigz", "sign", "secp", [k], d, z + N if z + N < 2 ** 256 else z))
+    # s = 0 on the first draw (z = -r d): the signer must retry with the next draw
+    for _ in range(2 if not T else 10):
+        d, k, k2 = rng.randrange(1, N), rng.randrange(1, N), rng.randrange(1, N)
+        z = _solve_z(sec, d, k, 0)
+        out.append(case("secp-sign-s=0-retry", "sign", "secp", [k, k2], d, z))
+        out.append(case("secp-sign-s=0-no-more-draws", "sign", "secp", [k], d, z))
     # retry branches: invalid inputs
     out.append(case("secp-sign-draws-exhausted", "sign", "secp", [0, 0], 5, 7))
     out.append(case("secp-sign-key-range", "sign", "secp", [3], N, 7))
